@@ -853,3 +853,26 @@ def _(eng, m, g, a):
     if k == "iter": return ListIt(it, True)
     if not it: return none()
     return some(Slot(it, 0 if k == "front" else len(it) - 1))
+
+@model(r"^core::str::<impl str>::(match_indices|rmatch_indices)$")
+def _(eng, m, g, a):
+    s = cstr(a[0], "match_indices"); p = deref(a[1]); p = chr(p.v) if isinstance(p, Sc) else cstr(p, "match_indices")
+    out = []; i = s.find(p)
+    while i >= 0 and p:
+        out.append(Agg("()", [U(len(s[:i].encode())), Slot([StrV([p])], 0)])); i = s.find(p, i + len(p))
+    if m.group(1) == "rmatch_indices": out.reverse()
+    return ListIt(out, byref=False)
+@model(r"^<(?:std|core)::str::Chars<.*> as DoubleEndedIterator>::next_back$|^<Chars<.*> as DoubleEndedIterator>::next_back$")
+def _(eng, m, g, a):
+    it = deref(a[0])
+    if isinstance(it, SymChars):
+        if len(it.chars) > it.pos: return some(it.chars.pop())
+        return none()
+    raise Pass()
+MODELS.insert(0, MODELS.pop())
+@model(r"^<.* as Iterator>::(rev)$")
+def _(eng, m, g, a):
+    it = deref(a[0])
+    if isinstance(it, SymChars): return SymChars(list(reversed(it.chars[it.pos:])))
+    raise Pass()
+MODELS.insert(0, MODELS.pop())
